@@ -391,7 +391,11 @@ func TestVerifC07Conc(t *testing.T) {
 	}
 	syncMode := os.Getenv("VERIF_C07_SYNC") == "1"
 	const nJobs, nStreams, base = 3, 24, 5
-	dir, err := os.MkdirTemp(os.Getenv("VERIF_SCRATCH"), "c07-conc-")
+	// this clause is about atomicity, not durability: a memory file system (cheap fsync) gives many more saves
+	dir, err := os.MkdirTemp("/dev/shm", "c07-conc-")
+	if err != nil {
+		dir, err = os.MkdirTemp(os.Getenv("VERIF_SCRATCH"), "c07-conc-")
+	}
 	if err != nil {
 		t.Fatal(err)
 	}
